@@ -156,6 +156,10 @@ class InferenceState:
     def reset_recursion_limitations(self):
         self.recursion_detector = recursion.RecursionDetector()
         self.execution_recursion_detector = recursion.ExecutionRecursionDetector(self)
+        # The per-context inference budget is a per-query limit as well.
+        # Without this the budget used by earlier queries on the same Script
+        # makes later ones return nothing.
+        self.inferred_element_counts = {}
 
     def get_sys_path(self, **kwargs):
         """Convenience function"""
